@@ -201,12 +201,11 @@ fn check_z80r_regs(e: &mut Emulator<VHost>, z: &ZAbs) {
 // @prop C14
 // @tier quick
 // @timeout 600
-// @fn szx::process_z80r_block; Z80::set_im; Regs setters
-// @sym every field of the Z80R chunk through the spec encoder (registers, I, R, IFF1/2 with arbitrary non-zero encoding, IM 0..2, cycle counter < 69888, EILAST, FSET, MEMPTR, undefined flag bits); receiver: all registers, halted, EI-pending, both machines
-// @assert all registers, IFF1, IFF2, IM equal the chunk; halted flag and EI-pending equal the chunk flags; PC = chunk PC; whatever the receiver held before
-// @bound one chunk; not halted (see KF-C14-4) and no prefix pending in the receiver (see KF-C14-1)
-// @assume chunk HALTED flag clear (complement: KF-C14-4, c14_known_szx_halted_pc); receiver not between a DD/FD prefix and its opcode (complement: KF-C14-1, c14_known_szx_prefix_survives)
-// @outside T-state position inside the frame (dwCyclesStart) is not one of the items the statement lists
+// @fn szx::process_z80r_block; Z80::reset_control_state; Z80::set_im; Regs setters
+// @sym every field of the Z80R chunk through the spec encoder (registers, I, R, IFF1/2 with arbitrary non-zero encoding, IM 0..2, cycle counter < 69888, EILAST, HALTED, FSET, MEMPTR, undefined flag bits); receiver: all registers, halted, EI-pending, both machines
+// @assert the chunk is accepted; all registers, IFF1, IFF2, IM equal the chunk; halted flag and EI-pending equal the chunk flags; PC = chunk PC also when HALTED (rustzx keeps PC on the HALT while halted); frame clock = dwCyclesStart; whatever the receiver held before
+// @bound one chunk per machine
+// @assume receiver not between a DD/FD prefix and its opcode (that region: c14_szx_z80r_into_prefixed_cpu)
 #[kani::proof]
 #[kani::unwind(40)]
 fn c14_szx_z80r_running() {
@@ -214,16 +213,18 @@ fn c14_szx_z80r_running() {
     let mut i = 0;
     while i < 2 {
         let z = any_zabs();
-        kani::assume(!z.halted);
         let nz: u8 = kani::any();
         kani::assume(nz != 0);
         let body = spec_z80r(&z, nz);
         let mut e = mk_emulator(m[i], CTX);
         dirty(&mut e, false);
-        process_z80r_block(&mut e, &body);
+        let r = process_z80r_block(&mut e, &body);
+        kani::assert(r.is_ok(), "c14.szx.z80r.accepted");
         check_z80r_regs(&mut e, &z);
         kani::assert(cpu(&mut e).regs.get_pc() == z.pc, "c14.szx.z80r.pc");
+        kani::assert(controller(&mut e).frame_clocks == z.cycles as usize, "c14.szx.z80r.frame_clock_is_chunk_value");
         kani::cover!(z.eilast && z.iff1 && !z.iff2 && z.im == 2 && z.hl_alt != z.hl, "EI-last chunk with all fields free");
+        kani::cover!(z.halted && z.pc == 0x8000, "halted chunk");
         i += 1;
     }
 }
@@ -232,46 +233,45 @@ fn c14_szx_z80r_running() {
 // @prop C14
 // @tier quick
 // @timeout 600
-// @expect known:KF-C14-4
 // @fn szx::process_z80r_block
 // @sym every Z80R field, HALTED set
-// @assert the machine is halted at the HALT: the interrupt return address (rustzx: PC+1 while halted) is the chunk's PC -- or, reading the chunk PC as the address of the HALT itself, PC = chunk PC.  Either reading is accepted.
+// @assert the machine is halted at the HALT: halted flag set and PC = chunk PC, so the next accepted interrupt returns to chunk PC + 1 (was KF-C14-4: PC was moved forward)
 // @bound one chunk, 48K
-// @assume chunk HALTED flag set (the region excluded from c14_szx_z80r_running)
+// @assume chunk HALTED flag set (sub-region of c14_szx_z80r_running, kept as focused witness)
 #[kani::proof]
 #[kani::unwind(40)]
-fn c14_known_szx_halted_pc() {
+fn c14_szx_z80r_halted_keeps_pc() {
     let z = any_zabs();
     kani::assume(z.halted);
     let body = spec_z80r(&z, 1);
     let mut e = mk_emulator(ZXMachine::Sinclair48K, CTX);
     dirty(&mut e, false);
-    process_z80r_block(&mut e, &body);
+    let r = process_z80r_block(&mut e, &body);
+    kani::assert(r.is_ok(), "c14.szx.z80r.accepted");
     check_z80r_regs(&mut e, &z);
-    let pc = cpu(&mut e).regs.get_pc();
-    kani::assert(pc.wrapping_add(1) == z.pc || pc == z.pc, "c14.szx.z80r.halted_return_address");
-    kani::cover!(true, "reached");
+    kani::assert(cpu(&mut e).halted && cpu(&mut e).regs.get_pc() == z.pc, "c14.szx.z80r.halted_at_chunk_pc");
+    kani::cover!(z.pc == 0xFFFF, "reached");
 }
 
 // @harness
 // @prop C14
 // @tier quick
 // @timeout 600
-// @expect known:KF-C14-1
-// @fn szx::process_z80r_block; Z80::emulate (to create and to observe the pending prefix)
+// @fn szx::process_z80r_block; Z80::reset_control_state; Z80::emulate (to create and to observe the pending prefix)
 // @sym every Z80R field; receiver executed DD DD just before the load
-// @assert after the Z80R chunk the next opcode is decoded unprefixed
+// @assert after the Z80R chunk the next opcode is decoded unprefixed (was KF-C14-1)
 // @bound one chunk, 48K; one instruction on a 4-byte bus to observe
 // @assume receiver between DD and its opcode (the region excluded from c14_szx_z80r_running)
 #[kani::proof]
 #[kani::unwind(40)]
-fn c14_known_szx_prefix_survives() {
+fn c14_szx_z80r_into_prefixed_cpu() {
     let z = any_zabs();
-    kani::assume(!z.halted);
     let body = spec_z80r(&z, 1);
     let mut e = mk_emulator(ZXMachine::Sinclair48K, CTX);
     dirty(&mut e, true);
-    process_z80r_block(&mut e, &body);
+    let r = process_z80r_block(&mut e, &body);
+    kani::assert(r.is_ok(), "c14.szx.z80r.accepted");
+    check_z80r_regs(&mut e, &z);
     kani::assert(!has_pending_prefix(cpu(&mut e)), "c14.szx.z80r.no_prefix_pending_after_load");
     kani::cover!(true, "reached");
 }
@@ -282,8 +282,8 @@ fn c14_known_szx_prefix_survives() {
 // @timeout 300
 // @fn Z80::emulate
 // @sym registers
-// @assert self-check of the observation device: a CPU that executed DD DD reports a pending prefix, a fresh CPU does not
-// @bound two instruction steps on a 4-byte bus
+// @assert self-check of the observation device: a CPU that executed DD DD reports a pending prefix, a fresh CPU does not, and reset_control_state clears it
+// @bound three instruction steps on a 4-byte bus
 #[kani::proof]
 #[kani::unwind(8)]
 fn c14_prefix_observer_selfcheck() {
@@ -294,8 +294,13 @@ fn c14_prefix_observer_selfcheck() {
     b.regs.set_hl(kani::any());
     b.regs.set_ix(kani::any());
     seed_pending_dd_prefix(&mut b);
+    let mut c = rustzx_z80::Z80::default();
+    c.regs.set_hl(kani::any());
+    seed_pending_dd_prefix(&mut c);
+    c.reset_control_state();
     kani::assert(!has_pending_prefix(&mut a), "c14.observer.clean_cpu_has_no_prefix");
     kani::assert(has_pending_prefix(&mut b), "c14.observer.dd_dd_leaves_prefix");
+    kani::assert(!has_pending_prefix(&mut c) && !c.skip_interrupt, "c14.observer.reset_clears_prefix");
     kani::cover!(true, "reached");
 }
 
@@ -311,29 +316,28 @@ fn spec_spcr(border: u8, p7ffd: u8, p1ffd: u8, fe: u8, reserved: [u8; 4]) -> [u8
 // @prop C14
 // @tier quick
 // @timeout 600
-// @fn szx::process_spcr_block; ZXController::write_7ffd; ZXController::write_io; ZXColor::from_bits
-// @sym border 0..7, port 7FFD byte (all 256), 1FFD byte, FE byte, reserved bytes; receiver border and (128K) unlocked 7FFD latch written through the real port
-// @assert border = chunk border; 128K: latch, lock, bank at C000, ROM, screen bank as the 7FFD byte says; 48K: map untouched
+// @fn szx::process_spcr_block; ZXController::restore_7ffd; ZXController::write_7ffd; ZXController::write_fe; ZXColor::from_bits
+// @sym border 0..7, port 7FFD byte (all 256), 1FFD byte, FE byte, reserved bytes; receiver border, frame clock and 7FFD latch (any value, locked or not) written through the real port
+// @assert the chunk is accepted; border = chunk border; 128K: latch, lock, bank at C000, ROM, screen bank as the 7FFD byte says, also when the receiver's paging was locked (was KF-C14-2); 48K: map untouched; the frame clock is not moved (was KF-C14-6)
 // @bound one chunk per machine (48K file id 1 into 48K machine, 128K file id 2 into 128K machine)
-// @stub ZXScreen::process_clocks -> no-op (write_io advances the beam)
-// @assume receiver paging not locked (complement: KF-C14-2)
 // @outside beeper/MIC level carried by chFe (not an item the statement lists)
-// @replay solver-only
 #[kani::proof]
 #[kani::unwind(10)]
-#[kani::stub(ZXScreen::process_clocks, noop_screen_clocks)]
 fn c14_szx_spcr() {
     let border: u8 = kani::any();
     kani::assume(border <= 7);
     let p7: u8 = kani::any();
     let body = spec_spcr(border, p7, kani::any(), kani::any(), kani::any());
+    let fc: usize = kani::any();
+    kani::assume(fc < 69888);
     // 128K
     let mut e = mk_emulator(ZXMachine::Sinclair128K, CTX);
     let l0: u8 = kani::any();
-    kani::assume(l0 & 0x20 == 0);
     controller(&mut e).write_7ffd(l0);
     controller(&mut e).set_border_color(0, crate::verif_hooks::any_color());
-    process_spcr_block(&mut e, 2, &body);
+    controller(&mut e).frame_clocks = fc;
+    let r = process_spcr_block(&mut e, 2, &body);
+    kani::assert(r.is_ok(), "c14.szx.spcr.accepted");
     let c = controller(&mut e);
     kani::assert(u8::from(c.border_color) == border, "c14.szx.spcr.border_128");
     kani::assert(c.read_7ffd() == p7, "c14.szx.spcr.latch");
@@ -342,41 +346,45 @@ fn c14_szx_spcr() {
     kani::assert(c.memory.get_page(0x0000) == Page::Rom((p7 >> 4) & 1), "c14.szx.spcr.map_rom");
     kani::assert(c.memory.get_page(0x4000) == Page::Ram(5) && c.memory.get_page(0x8000) == Page::Ram(2), "c14.szx.spcr.map_fixed");
     kani::assert(ch::screen_bank(c) == if p7 & 8 != 0 { 7 } else { 5 }, "c14.szx.spcr.screen_bank");
+    kani::assert(c.frame_clocks == fc, "c14.szx.spcr.frame_clock_untouched_128");
     // 48K
     let mut e = mk_emulator(ZXMachine::Sinclair48K, CTX);
     controller(&mut e).set_border_color(0, crate::verif_hooks::any_color());
-    process_spcr_block(&mut e, 1, &body);
+    controller(&mut e).frame_clocks = fc;
+    let r = process_spcr_block(&mut e, 1, &body);
+    kani::assert(r.is_ok(), "c14.szx.spcr.accepted_48");
     let c = controller(&mut e);
     kani::assert(u8::from(c.border_color) == border, "c14.szx.spcr.border_48");
     kani::assert(c.memory.get_page(0xC000) == Page::Ram(2) && c.memory.get_page(0x0000) == Page::Rom(0), "c14.szx.spcr.map_48_untouched");
-    kani::cover!(p7 == 0x3F && border == 6 && l0 == 0x17, "locking latch with shadow screen");
+    kani::assert(c.frame_clocks == fc, "c14.szx.spcr.frame_clock_untouched_48");
+    kani::cover!(p7 == 0x3F && border == 6 && l0 == 0x37, "locking latch with shadow screen into a locked machine");
+    kani::cover!(l0 & 0x20 == 0 && p7 & 0x20 == 0 && fc == 14335, "unlocked to unlocked");
 }
 
 // @harness
 // @prop C14
 // @tier quick
 // @timeout 600
-// @expect known:KF-C14-2
-// @fn szx::process_spcr_block; ZXController::write_7ffd
+// @fn szx::process_spcr_block; ZXController::restore_7ffd
 // @sym SPCR bytes; receiver latch with the lock bit set
-// @assert a 128K SPCR chunk applied to a machine whose paging is locked installs the chunk's latch
+// @assert a 128K SPCR chunk applied to a machine whose paging is locked installs the chunk's latch, lock bit and bank (was KF-C14-2)
 // @bound one chunk
-// @stub ZXScreen::process_clocks -> no-op
-// @assume receiver paging locked (the region excluded from c14_szx_spcr)
-// @replay solver-only
+// @assume receiver paging locked (sub-region of c14_szx_spcr, kept as focused witness)
 #[kani::proof]
 #[kani::unwind(10)]
-#[kani::stub(ZXScreen::process_clocks, noop_screen_clocks)]
-fn c14_known_szx_spcr_locked_machine() {
+fn c14_szx_spcr_into_locked_machine() {
     let p7: u8 = kani::any();
     let body = spec_spcr(0, p7, 0, 0, [0; 4]);
     let mut e = mk_emulator(ZXMachine::Sinclair128K, CTX);
     let l0: u8 = kani::any();
     kani::assume(l0 & 0x20 != 0 && l0 != p7);
     controller(&mut e).write_7ffd(l0);
-    process_spcr_block(&mut e, 2, &body);
+    let r = process_spcr_block(&mut e, 2, &body);
+    kani::assert(r.is_ok(), "c14.szx.spcr.accepted");
     kani::assert(controller(&mut e).read_7ffd() == p7, "c14.szx.spcr.latch");
-    kani::cover!(true, "reached");
+    kani::assert(ch::paging_enabled(controller(&mut e)) == (p7 & 0x20 == 0), "c14.szx.spcr.lock");
+    kani::assert(controller(&mut e).memory.get_page(0xC000) == Page::Ram(p7 & 7), "c14.szx.spcr.map_c000");
+    kani::cover!(p7 == 0x04, "unlocking chunk");
 }
 
 // @harness
@@ -385,17 +393,12 @@ fn c14_known_szx_spcr_locked_machine() {
 // @timeout 600
 // @fn szx::process_z80r_block; szx::process_spcr_block
 // @sym Z80R fields, SPCR bytes (border 0..7), 128K
-// @assert applying Z80R then SPCR or SPCR then Z80R gives the same registers, flags, border, latch, lock and map ("chunks in any order")
+// @assert applying Z80R then SPCR or SPCR then Z80R gives the same registers, flags, border, latch, lock, map and frame clock ("chunks in any order")
 // @bound two chunks, 128K, both orders
-// @stub ZXScreen::process_clocks -> no-op
-// @outside T-state position inside the frame: see KF-C14-6 (c14_known_szx_chunk_order_shifts_clock)
-// @replay solver-only
 #[kani::proof]
 #[kani::unwind(40)]
-#[kani::stub(ZXScreen::process_clocks, noop_screen_clocks)]
 fn c14_szx_z80r_spcr_commute() {
     let z = any_zabs();
-    kani::assume(!z.halted);
     let zb = spec_z80r(&z, 1);
     let border: u8 = kani::any();
     kani::assume(border <= 7);
@@ -403,10 +406,10 @@ fn c14_szx_z80r_spcr_commute() {
     let sb = spec_spcr(border, p7, 0, kani::any(), [0; 4]);
     let mut e1 = mk_emulator(ZXMachine::Sinclair128K, CTX);
     let mut e2 = mk_emulator(ZXMachine::Sinclair128K, CTX);
-    process_z80r_block(&mut e1, &zb);
-    process_spcr_block(&mut e1, 2, &sb);
-    process_spcr_block(&mut e2, 2, &sb);
-    process_z80r_block(&mut e2, &zb);
+    let _ = process_z80r_block(&mut e1, &zb);
+    let _ = process_spcr_block(&mut e1, 2, &sb);
+    let _ = process_spcr_block(&mut e2, 2, &sb);
+    let _ = process_z80r_block(&mut e2, &zb);
     check_z80r_regs(&mut e1, &z);
     check_z80r_regs(&mut e2, &z);
     kani::assert(cpu(&mut e1).regs.get_pc() == cpu(&mut e2).regs.get_pc(), "c14.szx.order.pc");
@@ -414,6 +417,7 @@ fn c14_szx_z80r_spcr_commute() {
     kani::assert(c1 == c2 && c1 == p7, "c14.szx.order.latch");
     kani::assert(u8::from(e1.border_color()) == border && u8::from(e2.border_color()) == border, "c14.szx.order.border");
     kani::assert(controller(&mut e1).memory.get_page(0xC000) == controller(&mut e2).memory.get_page(0xC000), "c14.szx.order.map");
+    kani::assert(controller(&mut e1).frame_clocks == controller(&mut e2).frame_clocks, "c14.szx.order.frame_clock");
     kani::cover!(z.eilast && p7 == 0x11, "reached with free fields");
 }
 
@@ -421,30 +425,25 @@ fn c14_szx_z80r_spcr_commute() {
 // @prop C14
 // @tier quick
 // @timeout 600
-// @expect known:KF-C14-6
-// @fn szx::process_z80r_block; szx::process_spcr_block; ZXController::write_io
+// @fn szx::process_z80r_block; szx::process_spcr_block; ZXController::write_fe
 // @sym Z80R fields, SPCR bytes, 48K
-// @assert the T-state position inside the frame after loading does not depend on whether Z80R precedes SPCR ("chunks in any order ... machines that behave identically")
+// @assert the T-state position inside the frame after loading is the chunk's dwCyclesStart whether Z80R precedes SPCR or follows it (was KF-C14-6)
 // @bound two chunks, both orders
-// @stub ZXScreen::process_clocks -> no-op
-// @replay solver-only
 #[kani::proof]
 #[kani::unwind(40)]
-#[kani::stub(ZXScreen::process_clocks, noop_screen_clocks)]
-fn c14_known_szx_chunk_order_shifts_clock() {
+fn c14_szx_chunk_order_keeps_clock() {
     let z = any_zabs();
-    kani::assume(!z.halted);
     let zb = spec_z80r(&z, 1);
     let sb = spec_spcr(0, 0, 0, kani::any(), [0; 4]);
     let mut e1 = mk_emulator(ZXMachine::Sinclair48K, CTX);
     let mut e2 = mk_emulator(ZXMachine::Sinclair48K, CTX);
-    process_z80r_block(&mut e1, &zb);
-    process_spcr_block(&mut e1, 1, &sb);
-    process_spcr_block(&mut e2, 1, &sb);
-    process_z80r_block(&mut e2, &zb);
+    let _ = process_z80r_block(&mut e1, &zb);
+    let _ = process_spcr_block(&mut e1, 1, &sb);
+    let _ = process_spcr_block(&mut e2, 1, &sb);
+    let _ = process_z80r_block(&mut e2, &zb);
     kani::assert(controller(&mut e1).frame_clocks == controller(&mut e2).frame_clocks, "c14.szx.order.frame_clock");
     kani::assert(controller(&mut e1).frame_clocks == z.cycles as usize, "c14.szx.z80r.frame_clock_is_chunk_value");
-    kani::cover!(true, "reached");
+    kani::cover!(z.cycles == 14340, "reached inside the contended part of the frame");
 }
 
 // ------------------------------------------------------------------------------------------------
@@ -457,7 +456,7 @@ fn c14_known_szx_chunk_order_shifts_clock() {
 // @timeout 300
 // @fn szx::process_amxm_block; szx::process_keyb_block
 // @sym mouse type 0..2, control bytes; receiver with or without a mouse; KEYB bytes
-// @assert Kempston mouse present afterwards iff the chunk type is 2 (Kempston), independent of the receiver; KEYB leaves mouse presence alone
+// @assert both chunks are accepted; Kempston mouse present afterwards iff the chunk type is 2 (Kempston), independent of the receiver; KEYB leaves mouse presence alone
 // @bound one AMXM chunk then one KEYB chunk, 48K
 #[kani::proof]
 #[kani::unwind(10)]
@@ -469,10 +468,12 @@ fn c14_szx_amxm_mouse_presence() {
     s.mouse_enabled = kani::any();
     s.kempston_enabled = kani::any();
     let mut e = crate::emulator::verif_hooks::mk_emulator_with(s, CTX);
-    process_amxm_block(&mut e, &body);
+    let r = process_amxm_block(&mut e, &body);
+    kani::assert(r.is_ok(), "c14.szx.amxm.accepted");
     kani::assert(controller(&mut e).mouse.is_some() == (ty == 2), "c14.szx.amxm.mouse_presence");
     let kb: [u8; 5] = kani::any();
-    process_keyb_block(&mut e, &kb);
+    let r = process_keyb_block(&mut e, &kb);
+    kani::assert(r.is_ok(), "c14.szx.keyb.accepted");
     kani::assert(controller(&mut e).mouse.is_some() == (ty == 2), "c14.szx.keyb.leaves_mouse");
     kani::cover!(ty == 2, "kempston mouse");
     kani::cover!(ty == 1, "AMX mouse (unsupported -> none)");
@@ -573,6 +574,8 @@ fn c14_szx_ramp_compressed_refused_without_zlib() {
 
 // ================================================================================================
 // C15 / chunk processors on 0..40 arbitrary bytes
+// (the regions that panicked before fixes c28aa59, a0baa7b, 5aafad8, e2ae34c, 8db987c are part of
+// the main harnesses now; the former witnesses are kept as focused sub-region harnesses)
 // ================================================================================================
 
 /// replaces `core::str::from_utf8` where the harness restricts the bytes to ASCII or to one byte
@@ -600,152 +603,167 @@ fn any_chunk() -> ([u8; 40], usize) {
     (data, len)
 }
 
+fn is_invalid_szx(r: &Result<()>) -> bool {
+    matches!(r, Err(Error::SnapshotLoad(SnapshotLoadError::InvalidSZXFile)))
+}
+
 // @harness
 // @prop C15
 // @tier quick
 // @timeout 600
-// @fn szx::process_z80r_block; Z80::set_im
-// @sym chunk bytes 37..40 long, all values; both machines
-// @assert no panic / overflow (Kani checks); afterwards the CPU state is one C01/C02 accept (IM in 0..2 by construction)
-// @bound one chunk
-// @assume chunk length >= 37 (shorter: KF-C15-3) and IM byte <= 2 (larger: KF-C15-4)
+// @fn szx::process_z80r_block; szx::ensure_block_size; Z80::set_im
+// @sym chunk bytes 0..40 long, all values; both machines; receiver PC/HL/halted
+// @assert no panic / overflow (Kani checks); Ok exactly when the chunk has at least 37 bytes and the IM byte is 0..2, otherwise Err(InvalidSZXFile) with the CPU untouched
+// @bound one chunk per machine
 #[kani::proof]
 #[kani::unwind(10)]
 fn c15_szx_z80r_total() {
     let (data, len) = any_chunk();
-    kani::assume(len >= 37);
-    kani::assume(data[28] <= 2);
-    let mut e = mk_emulator(ZXMachine::Sinclair48K, CTX);
-    process_z80r_block(&mut e, &data[..len]);
-    let mut e = mk_emulator(ZXMachine::Sinclair128K, CTX);
-    process_z80r_block(&mut e, &data[..len]);
-    kani::cover!(len == 40 && data[34] == 0xFF, "longest chunk, all flags");
-    kani::cover!(len == 37, "exact chunk");
+    let good = len >= 37 && data[28] <= 2;
+    let m = [ZXMachine::Sinclair48K, ZXMachine::Sinclair128K];
+    let mut i = 0;
+    while i < 2 {
+        let mut e = mk_emulator(m[i], CTX);
+        let (pc, hl, halted): (u16, u16, bool) = (kani::any(), kani::any(), kani::any());
+        cpu(&mut e).regs.set_pc(pc);
+        cpu(&mut e).regs.set_hl(hl);
+        cpu(&mut e).halted = halted;
+        let r = process_z80r_block(&mut e, &data[..len]);
+        kani::assert(r.is_ok() == good, "c15.szx.z80r.ok_iff_long_enough_and_im_valid");
+        if !good {
+            kani::assert(is_invalid_szx(&r), "c15.szx.z80r.err_kind");
+            let c = cpu(&mut e);
+            kani::assert(c.regs.get_pc() == pc && c.regs.get_hl() == hl && c.halted == halted, "c15.szx.z80r.rejected_chunk_changes_nothing");
+        }
+        i += 1;
+    }
+    kani::cover!(len == 40 && data[34] == 0xFF && good, "longest chunk, all flags");
+    kani::cover!(len == 37 && good, "exact chunk");
+    kani::cover!(len == 36, "one byte short");
+    kani::cover!(len >= 37 && data[28] == 3, "interrupt mode 3");
 }
 
 // @harness
 // @prop C15
 // @tier quick
 // @timeout 600
-// @expect known:KF-C15-3
 // @fn szx::process_z80r_block
 // @sym chunk bytes, length 0..36
-// @assert a Z80R chunk shorter than 37 bytes does not panic
+// @assert a Z80R chunk shorter than 37 bytes is Err(InvalidSZXFile), no panic (was KF-C15-3)
 // @bound one chunk
-// @assume length < 37 (the region excluded from c15_szx_z80r_total)
+// @assume length < 37 (sub-region of c15_szx_z80r_total)
 #[kani::proof]
 #[kani::unwind(10)]
-fn c15_known_szx_z80r_short_chunk() {
+fn c15_szx_z80r_short_chunk_is_err() {
     let (data, len) = any_chunk();
     kani::assume(len < 37);
-    kani::assume(len <= 28 || data[28] <= 2);
     let mut e = mk_emulator(ZXMachine::Sinclair48K, CTX);
-    process_z80r_block(&mut e, &data[..len]);
-    kani::cover!(true, "reached");
+    let r = process_z80r_block(&mut e, &data[..len]);
+    kani::assert(is_invalid_szx(&r), "c15.szx.z80r.short_is_err");
+    kani::cover!(len == 0, "empty chunk");
 }
 
 // @harness
 // @prop C15
 // @tier quick
 // @timeout 600
-// @expect known:KF-C15-4
 // @fn szx::process_z80r_block; Z80::set_im
 // @sym chunk bytes, IM byte >= 3
-// @assert a full-length Z80R chunk with an interrupt-mode byte outside 0..2 does not panic
+// @assert a full-length Z80R chunk with an interrupt-mode byte outside 0..2 is Err(InvalidSZXFile), no panic (was KF-C15-4)
 // @bound one chunk
-// @assume IM byte >= 3 (the region excluded from c15_szx_z80r_total)
+// @assume IM byte >= 3 (sub-region of c15_szx_z80r_total)
 #[kani::proof]
 #[kani::unwind(10)]
-fn c15_known_szx_z80r_im_byte() {
+fn c15_szx_z80r_im_byte_is_err() {
     let (data, len) = any_chunk();
     kani::assume(len >= 37 && data[28] >= 3);
     let mut e = mk_emulator(ZXMachine::Sinclair48K, CTX);
-    process_z80r_block(&mut e, &data[..len]);
-    kani::cover!(true, "reached");
+    let r = process_z80r_block(&mut e, &data[..len]);
+    kani::assert(is_invalid_szx(&r), "c15.szx.z80r.im_is_err");
+    kani::cover!(data[28] == 0xFF, "reached");
 }
 
 // @harness
 // @prop C15
 // @tier quick
 // @timeout 600
-// @fn szx::process_spcr_block; ZXController::write_7ffd; ZXController::write_io; ZXColor::from_bits
-// @sym chunk bytes 4..40 long, machine id byte 0..2, both machines (also mismatching ids); receiver frame clock anywhere in the frame
-// @assert no panic / overflow; memory map afterwards names existing pages
-// @bound one chunk
-// @stub ZXScreen::process_clocks -> no-op
-// @assume chunk length >= 4 (shorter: KF-C15-3) and border byte <= 7 (larger: KF-C15-5)
-// @replay solver-only
+// @fn szx::process_spcr_block; ZXController::restore_7ffd; ZXController::write_fe; ZXColor::from_bits
+// @sym chunk bytes 0..40 long (any border byte), machine id byte 0..2 matching the machine (the walker refuses the rest), both machines; receiver frame clock anywhere in the frame
+// @assert no panic / overflow; Ok exactly when the chunk has at least 8 bytes, otherwise Err(InvalidSZXFile); border afterwards = low three bits of the border byte; memory map afterwards names existing pages; frame clock untouched
+// @bound one chunk per machine
 #[kani::proof]
 #[kani::unwind(10)]
-#[kani::stub(ZXScreen::process_clocks, noop_screen_clocks)]
 fn c15_szx_spcr_total() {
     let (data, len) = any_chunk();
-    kani::assume(len >= 4);
-    kani::assume(data[0] <= 7);
-    let id: u32 = kani::any();
-    kani::assume(id <= 2);
+    let id48: u32 = kani::any();
+    kani::assume(id48 <= 1);
     let fc: usize = kani::any();
     kani::assume(fc < 69888);
     let mut e = mk_emulator(ZXMachine::Sinclair48K, CTX);
     controller(&mut e).frame_clocks = fc;
-    process_spcr_block(&mut e, id, &data[..len]);
+    let r = process_spcr_block(&mut e, id48, &data[..len]);
+    kani::assert(r.is_ok() == (len >= 8), "c15.szx.spcr.ok_iff_long_enough_48");
     kani::assert(controller(&mut e).memory.get_page(0xC000) == Page::Ram(2), "c15.szx.spcr.map_48");
+    kani::assert(controller(&mut e).frame_clocks == fc, "c15.szx.spcr.frame_clock_48");
+    if len >= 8 {
+        kani::assert(u8::from(controller(&mut e).border_color) == data[0] & 7, "c15.szx.spcr.border_masked");
+    }
     let mut e = mk_emulator(ZXMachine::Sinclair128K, CTX);
     controller(&mut e).frame_clocks = fc;
-    process_spcr_block(&mut e, id, &data[..len]);
+    let r = process_spcr_block(&mut e, 2, &data[..len]);
+    kani::assert(r.is_ok() == (len >= 8), "c15.szx.spcr.ok_iff_long_enough_128");
+    if len < 8 {
+        kani::assert(is_invalid_szx(&r), "c15.szx.spcr.err_kind");
+    }
     let ok = match controller(&mut e).memory.get_page(0xC000) {
         Page::Ram(p) => p < 8,
         Page::Rom(_) => false,
     };
     kani::assert(ok, "c15.szx.spcr.map_128");
-    kani::cover!(len == 4 && id == 2 && data[1] == 0xFF, "shortest chunk, all latch bits");
+    kani::cover!(len == 8 && data[1] == 0xFF && data[0] == 0xFF, "shortest chunk, all latch and border bits");
+    kani::cover!(len == 7, "one byte short");
 }
 
 // @harness
 // @prop C15
 // @tier quick
 // @timeout 600
-// @expect known:KF-C15-3
 // @fn szx::process_spcr_block
-// @sym chunk bytes, length 0..3
-// @assert an SPCR chunk shorter than 4 bytes does not panic
+// @sym chunk bytes, length 0..7
+// @assert an SPCR chunk shorter than 8 bytes is Err(InvalidSZXFile), no panic (was KF-C15-3)
 // @bound one chunk
-// @stub ZXScreen::process_clocks -> no-op
-// @assume length < 4
-// @replay solver-only
+// @assume length < 8
 #[kani::proof]
 #[kani::unwind(10)]
-#[kani::stub(ZXScreen::process_clocks, noop_screen_clocks)]
-fn c15_known_szx_spcr_short_chunk() {
+fn c15_szx_spcr_short_chunk_is_err() {
     let (data, len) = any_chunk();
-    kani::assume(len < 4);
-    kani::assume(data[0] <= 7);
+    kani::assume(len < 8);
     let mut e = mk_emulator(ZXMachine::Sinclair128K, CTX);
-    process_spcr_block(&mut e, 2, &data[..len]);
-    kani::cover!(true, "reached");
+    let r = process_spcr_block(&mut e, 2, &data[..len]);
+    kani::assert(is_invalid_szx(&r), "c15.szx.spcr.short_is_err");
+    kani::assert(controller(&mut e).read_7ffd() == 0, "c15.szx.spcr.rejected_chunk_changes_nothing");
+    kani::cover!(len == 3, "reached");
 }
 
 // @harness
 // @prop C15
 // @tier quick
 // @timeout 600
-// @expect known:KF-C15-5
 // @fn szx::process_spcr_block; ZXColor::from_bits
 // @sym chunk bytes, border byte >= 8
-// @assert an SPCR chunk whose border byte is outside 0..7 does not panic
+// @assert an SPCR chunk whose border byte is outside 0..7 is applied with the colour masked to three bits, no panic (was KF-C15-5)
 // @bound one chunk
-// @stub ZXScreen::process_clocks -> no-op
-// @assume border byte > 7 (the region excluded from c15_szx_spcr_total)
-// @replay solver-only
+// @assume border byte > 7 (sub-region of c15_szx_spcr_total)
 #[kani::proof]
 #[kani::unwind(10)]
-#[kani::stub(ZXScreen::process_clocks, noop_screen_clocks)]
-fn c15_known_szx_spcr_border_byte() {
+fn c15_szx_spcr_border_byte_masked() {
     let (data, len) = any_chunk();
     kani::assume(len >= 8 && data[0] > 7);
     let mut e = mk_emulator(ZXMachine::Sinclair48K, CTX);
-    process_spcr_block(&mut e, 1, &data[..len]);
-    kani::cover!(true, "reached");
+    let r = process_spcr_block(&mut e, 1, &data[..len]);
+    kani::assert(r.is_ok(), "c15.szx.spcr.accepted");
+    kani::assert(u8::from(e.border_color()) == data[0] & 7, "c15.szx.spcr.border_masked");
+    kani::cover!(data[0] == 0xFF, "reached");
 }
 
 // @harness
@@ -753,48 +771,58 @@ fn c15_known_szx_spcr_border_byte() {
 // @tier quick
 // @timeout 600
 // @fn szx::process_keyb_block; szx::process_amxm_block
-// @sym chunk bytes, KEYB length 5..40, AMXM length 1..40
-// @assert no panic / overflow
+// @sym chunk bytes, length 0..40
+// @assert no panic / overflow; KEYB is Ok exactly from 5 bytes, AMXM exactly from 7 bytes, shorter ones Err(InvalidSZXFile) leaving joystick / mouse presence alone
 // @bound one chunk each
-// @assume KEYB length >= 5, AMXM length >= 1 (shorter: KF-C15-3)
 #[kani::proof]
 #[kani::unwind(10)]
 fn c15_szx_keyb_amxm_total() {
     let (data, len) = any_chunk();
-    let mut e = mk_emulator(ZXMachine::Sinclair48K, CTX);
-    if len >= 5 {
-        process_keyb_block(&mut e, &data[..len]);
+    let mut s = crate::emulator::verif_hooks::mk_settings(ZXMachine::Sinclair48K);
+    s.mouse_enabled = true;
+    s.kempston_enabled = true;
+    let mut e = crate::emulator::verif_hooks::mk_emulator_with(s, CTX);
+    let r = process_keyb_block(&mut e, &data[..len]);
+    kani::assert(r.is_ok() == (len >= 5), "c15.szx.keyb.ok_iff_long_enough");
+    if len < 5 {
+        kani::assert(is_invalid_szx(&r) && controller(&mut e).kempston.is_some(), "c15.szx.keyb.rejected_changes_nothing");
     }
-    if len >= 1 {
-        process_amxm_block(&mut e, &data[..len]);
+    let r = process_amxm_block(&mut e, &data[..len]);
+    kani::assert(r.is_ok() == (len >= 7), "c15.szx.amxm.ok_iff_long_enough");
+    if len < 7 {
+        kani::assert(is_invalid_szx(&r) && controller(&mut e).mouse.is_some(), "c15.szx.amxm.rejected_changes_nothing");
     }
-    kani::cover!(len == 1, "one-byte AMXM");
-    kani::cover!(len == 5 && data[4] == 1, "KEYB selecting a joystick");
+    kani::cover!(len == 6, "KEYB ok, AMXM short");
+    kani::cover!(len == 7 && data[4] == 1 && data[0] == 2, "both applied");
 }
 
 // @harness
 // @prop C15
 // @tier quick
 // @timeout 600
-// @expect known:KF-C15-3
 // @fn szx::process_keyb_block; szx::process_amxm_block
-// @sym chunk bytes, KEYB length 0..4 / AMXM length 0
-// @assert short KEYB / empty AMXM chunks do not panic
+// @sym chunk bytes, length 0..4
+// @assert short KEYB / AMXM chunks are Err(InvalidSZXFile), no panic (was KF-C15-3)
 // @bound one chunk each
-// @assume KEYB length < 5
+// @assume length < 5
 #[kani::proof]
 #[kani::unwind(10)]
-fn c15_known_szx_keyb_amxm_short_chunk() {
+fn c15_szx_keyb_amxm_short_chunk_is_err() {
     let (data, len) = any_chunk();
     kani::assume(len < 5);
     let mut e = mk_emulator(ZXMachine::Sinclair48K, CTX);
-    if kani::any() {
-        process_keyb_block(&mut e, &data[..len]);
-    } else {
-        kani::assume(len == 0);
-        process_amxm_block(&mut e, &data[..len]);
+    let r1 = process_keyb_block(&mut e, &data[..len]);
+    let r2 = process_amxm_block(&mut e, &data[..len]);
+    kani::assert(is_invalid_szx(&r1) && is_invalid_szx(&r2), "c15.szx.keyb_amxm.short_is_err");
+    kani::cover!(len == 0, "empty chunk");
+}
+
+fn assume_name_in_stub_domain(data: &[u8; 40]) {
+    let mut i = 0;
+    while i < 33 {
+        kani::assume(data[i] < 0x80 || data[i] >= 0xF8);
+        i += 1;
     }
-    kani::cover!(true, "reached");
 }
 
 // @harness
@@ -802,79 +830,83 @@ fn c15_known_szx_keyb_amxm_short_chunk() {
 // @tier quick
 // @timeout 900
 // @fn szx::process_crtr_block; core::str::from_utf8
-// @sym chunk bytes 37..40 long with a 7-bit ASCII creator name
-// @assert no panic / overflow
+// @sym chunk bytes 0..40 long; each of the 33 creator-name bytes is 7-bit ASCII or a byte that never occurs in UTF-8 (0xF8..0xFF)
+// @assert no panic / overflow for short chunks and for names that are not UTF-8 (the chunk carries nothing rustzx uses; it is ignored)
 // @bound one chunk
-// @assume length >= 37 (shorter: KF-C15-3); the 33 name bytes are < 0x80 (otherwise: KF-C15-6)
-// @stub core::str::from_utf8 -> ASCII-only validator (exact on the harness domain: bytes < 0x80, or one byte that is never valid UTF-8)
+// @stub core::str::from_utf8 -> ASCII-only validator (exact on the harness domain)
 // @replay solver-only
 #[kani::proof]
 #[kani::unwind(42)]
 #[kani::stub(core::str::from_utf8, ascii_only_from_utf8)]
 fn c15_szx_crtr_total() {
     let (data, len) = any_chunk();
-    kani::assume(len >= 37);
-    let mut i = 0;
-    while i < 33 {
-        kani::assume(data[i] < 0x80);
-        i += 1;
-    }
+    assume_name_in_stub_domain(&data);
     let mut e = mk_emulator(ZXMachine::Sinclair48K, CTX);
     process_crtr_block(&mut e, &data[..len]);
-    kani::cover!(len == 37, "exact chunk");
+    kani::cover!(len == 37 && data[0] == 0xFF, "exact chunk with a non-UTF-8 name");
+    kani::cover!(len == 36, "one byte short");
 }
 
 // @harness
 // @prop C15
 // @tier quick
 // @timeout 900
-// @expect known:KF-C15-3
 // @fn szx::process_crtr_block
 // @sym chunk bytes, length 0..36
-// @assert a CRTR chunk shorter than 37 bytes does not panic
+// @assert a CRTR chunk shorter than 37 bytes does not panic (was KF-C15-3)
 // @bound one chunk
-// @assume length < 37, name bytes ASCII
-// @stub core::str::from_utf8 -> ASCII-only validator (exact on the harness domain: bytes < 0x80, or one byte that is never valid UTF-8)
+// @assume length < 37
+// @stub core::str::from_utf8 -> ASCII-only validator
 // @replay solver-only
 #[kani::proof]
 #[kani::unwind(42)]
 #[kani::stub(core::str::from_utf8, ascii_only_from_utf8)]
-fn c15_known_szx_crtr_short_chunk() {
+fn c15_szx_crtr_short_chunk_ignored() {
     let (data, len) = any_chunk();
     kani::assume(len < 37);
-    let mut i = 0;
-    while i < 33 {
-        kani::assume(data[i] < 0x80);
-        i += 1;
-    }
+    assume_name_in_stub_domain(&data);
     let mut e = mk_emulator(ZXMachine::Sinclair48K, CTX);
     process_crtr_block(&mut e, &data[..len]);
-    kani::cover!(true, "reached");
+    kani::cover!(len == 33, "name present, version fields cut");
 }
 
 // @harness
 // @prop C15
 // @tier quick
 // @timeout 900
-// @expect known:KF-C15-6
 // @fn szx::process_crtr_block; core::str::from_utf8
-// @sym chunk bytes, first name byte >= 0x80 followed by an ASCII byte (invalid UTF-8)
-// @assert a CRTR chunk whose creator name is not UTF-8 does not panic
+// @sym first name byte in 0x80..0xBF or 0xF8..0xFF (never valid as the first byte of a UTF-8 sequence), rest 'A'
+// @assert a CRTR chunk whose creator name is not UTF-8 does not panic (was KF-C15-6)
 // @bound one chunk of 37 bytes
-// @assume name starts with a byte in 0x80..0xBF or 0xF8..0xFF (never valid UTF-8)
-// @stub core::str::from_utf8 -> ASCII-only validator (exact on the harness domain: bytes < 0x80, or one byte that is never valid UTF-8)
+// @stub core::str::from_utf8 -> ASCII-only validator
 // @replay solver-only
 #[kani::proof]
 #[kani::unwind(42)]
 #[kani::stub(core::str::from_utf8, ascii_only_from_utf8)]
-fn c15_known_szx_crtr_name_not_utf8() {
+fn c15_szx_crtr_name_not_utf8_ignored() {
     let mut data = [0x41u8; 37];
     let b: u8 = kani::any();
     kani::assume((b >= 0x80 && b <= 0xBF) || b >= 0xF8);
     data[0] = b;
     let mut e = mk_emulator(ZXMachine::Sinclair48K, CTX);
     process_crtr_block(&mut e, &data);
-    kani::cover!(true, "reached");
+    kani::cover!(b == 0x80, "reached");
+}
+
+/// page the format assigns on a machine with `ram_pages` RAM pages, None = the machine has no such page
+fn spec_ramp_target(id: u32, page: u8) -> Option<u8> {
+    if id < 2 {
+        match page {
+            5 => Some(0),
+            2 => Some(1),
+            0 => Some(2),
+            _ => None,
+        }
+    } else if page < 8 {
+        Some(page)
+    } else {
+        None
+    }
 }
 
 // @harness
@@ -882,79 +914,79 @@ fn c15_known_szx_crtr_name_not_utf8() {
 // @tier quick
 // @timeout 600
 // @fn szx::process_ramp_block; ZXMemory::ram_page_data_mut
-// @sym chunk bytes 3..40 long with the compressed flag set, page number valid for the machine, machine id 0..2
-// @assert no panic / overflow; Err (no zlib in this build)
+// @sym chunk bytes 0..40 long, any flags, any page number; machine id 0..1 on the 48K machine, 2 on the 128K machine (szx::load refuses other combinations before any chunk, see c14_szx_other_model_rejected)
+// @assert no panic / overflow; always Err for chunks this short: InvalidSZXFile when the header is cut, the page does not exist on the machine (was KF-C15-7) or stored data is shorter than a page (was KF-C15-3); ZlibNotSupported for a compressed page of an existing page number (no zlib in this build)
 // @bound one chunk per machine
-// @assume length >= 3 (shorter: KF-C15-3); page number exists on the machine after the 48K renumbering (otherwise: KF-C15-7); compressed flag set (stored data shorter than 16384: KF-C15-3)
 // @outside builds with feature zlib
 #[kani::proof]
 #[kani::unwind(10)]
 fn c15_szx_ramp_small_total() {
     let (data, len) = any_chunk();
-    kani::assume(len >= 3 && data[0] & 1 == 1);
-    let id: u32 = kani::any();
-    kani::assume(id <= 2);
-    let page = data[2];
-    let mapped = if id < 2 { match page { 5 => 0, 2 => 1, 0 => 2, p => p } } else { page };
-    if mapped < 3 {
-        let mut e = mk_emulator(ZXMachine::Sinclair48K, CTX);
+    let id48: u32 = kani::any();
+    kani::assume(id48 <= 1);
+    let mut k = 0;
+    while k < 2 {
+        let (machine, id) = if k == 0 { (ZXMachine::Sinclair48K, id48) } else { (ZXMachine::Sinclair128K, 2) };
+        let mut e = mk_emulator(machine, CTX);
         let r = process_ramp_block(&mut e, id, &data[..len]);
-        kani::assert(r.is_err(), "c15.szx.ramp.compressed_is_err_48");
+        kani::assert(r.is_err(), "c15.szx.ramp.short_chunk_is_err");
+        if len < 3 || spec_ramp_target(id, data[2]).is_none() || data[0] & 1 == 0 {
+            kani::assert(is_invalid_szx(&r), "c15.szx.ramp.invalid_is_invalid_szx");
+        } else {
+            kani::assert(matches!(r, Err(Error::SnapshotLoad(SnapshotLoadError::ZlibNotSupported))), "c15.szx.ramp.compressed_without_zlib");
+        }
+        k += 1;
     }
-    if mapped < 8 {
-        let mut e = mk_emulator(ZXMachine::Sinclair128K, CTX);
-        let r = process_ramp_block(&mut e, id, &data[..len]);
-        kani::assert(r.is_err(), "c15.szx.ramp.compressed_is_err_128");
-    }
-    kani::cover!(mapped == 7 && id == 2 && len == 3, "bank 7, shortest chunk");
-    kani::cover!(mapped == 2 && id == 1 && page == 0, "48K renumbering of page 0");
+    kani::cover!(len == 3 && data[2] == 7 && data[0] & 1 == 1, "bank 7, shortest chunk");
+    kani::cover!(len >= 3 && data[2] == 1 && id48 == 1, "page 1 in a 48K file");
+    kani::cover!(len == 2, "header cut");
 }
 
 // @harness
 // @prop C15
 // @tier quick
 // @timeout 600
-// @expect known:KF-C15-3
 // @fn szx::process_ramp_block
 // @sym chunk bytes 0..40 long, stored (uncompressed) flag or length < 3
-// @assert a RAMP chunk that is too short (header cut, or stored data shorter than 16384 bytes) does not panic
+// @assert a RAMP chunk that is too short (header cut, or stored data shorter than 16384 bytes) is Err(InvalidSZXFile), no panic (was KF-C15-3)
 // @bound one chunk, 128K machine, page number valid
-// @assume length < 3, or compressed flag clear with data < 16384 bytes
+// @assume length < 3, or compressed flag clear
 #[kani::proof]
 #[kani::unwind(10)]
-fn c15_known_szx_ramp_short_chunk() {
+fn c15_szx_ramp_short_chunk_is_err() {
     let (data, len) = any_chunk();
     kani::assume(len < 3 || (data[0] & 1 == 0 && data[2] < 8));
     let mut e = mk_emulator(ZXMachine::Sinclair128K, CTX);
-    let _ = process_ramp_block(&mut e, 2, &data[..len]);
-    kani::cover!(true, "reached");
+    let r = process_ramp_block(&mut e, 2, &data[..len]);
+    kani::assert(is_invalid_szx(&r), "c15.szx.ramp.short_is_err");
+    kani::cover!(len == 40, "stored page with 37 data bytes");
 }
 
 // @harness
 // @prop C15
 // @tier quick
 // @timeout 600
-// @expect known:KF-C15-7
 // @fn szx::process_ramp_block; ZXMemory::ram_page_data_mut
-// @sym page number not present on the machine (>= 3 after renumbering on 48K, >= 8 on 128K), other bytes
-// @assert a RAMP chunk naming a RAM page the machine does not have is refused without panic
+// @sym page number not present on the machine (>= 8 on 128K; anything but 5, 2, 0 on 48K), other bytes
+// @assert a RAMP chunk naming a RAM page the machine does not have is Err(InvalidSZXFile), no panic (was KF-C15-7)
 // @bound one chunk
-// @assume page number out of range (the region excluded from c15_szx_ramp_small_total)
+// @assume page number out of range (sub-region of c15_szx_ramp_small_total)
 #[kani::proof]
 #[kani::unwind(10)]
-fn c15_known_szx_ramp_bad_page() {
+fn c15_szx_ramp_bad_page_is_err() {
     let (data, len) = any_chunk();
-    kani::assume(len >= 3 && data[0] & 1 == 1);
-    if kani::any() {
+    kani::assume(len >= 3);
+    let r = if kani::any() {
         kani::assume(data[2] >= 8);
         let mut e = mk_emulator(ZXMachine::Sinclair128K, CTX);
-        let _ = process_ramp_block(&mut e, 2, &data[..len]);
+        process_ramp_block(&mut e, 2, &data[..len])
     } else {
-        kani::assume(data[2] != 0 && data[2] != 2 && data[2] != 5 && data[2] >= 3);
+        kani::assume(data[2] != 0 && data[2] != 2 && data[2] != 5);
         let mut e = mk_emulator(ZXMachine::Sinclair48K, CTX);
-        let _ = process_ramp_block(&mut e, 1, &data[..len]);
-    }
-    kani::cover!(true, "reached");
+        process_ramp_block(&mut e, 1, &data[..len])
+    };
+    kani::assert(is_invalid_szx(&r), "c15.szx.ramp.bad_page_is_err");
+    kani::cover!(data[2] == 1, "page 1 offered to a 48K machine");
 }
 
 // ================================================================================================
@@ -996,11 +1028,14 @@ pub(crate) struct SmallAsset {
     pub calls: u8,
     pub fault_hit: bool,
     pub max_req: usize,
+    /// a request larger than a chunk header (i.e. a freshly allocated chunk buffer) exceeded the
+    /// bytes left in the file at that moment
+    pub over_remaining: bool,
 }
 
 impl SmallAsset {
     fn new(data: [u8; 48], len: usize) -> Self {
-        SmallAsset { data, len, pos: 0, fault: FAULT_NONE, calls: 0, fault_hit: false, max_req: 0 }
+        SmallAsset { data, len, pos: 0, fault: FAULT_NONE, calls: 0, fault_hit: false, max_req: 0, over_remaining: false }
     }
     fn tick(&mut self) -> bool {
         let idx = self.calls;
@@ -1018,6 +1053,9 @@ impl LoadableAsset for &mut SmallAsset {
     fn read(&mut self, buf: &mut [u8]) -> core::result::Result<usize, IoError> {
         if buf.len() > self.max_req {
             self.max_req = buf.len();
+        }
+        if buf.len() > 8 && buf.len() > self.len.saturating_sub(self.pos) {
+            self.over_remaining = true;
         }
         let faulty = self.tick();
         if faulty && self.fault.kind == 0 {
@@ -1171,9 +1209,9 @@ const ID_PAIRS: [([u8; 4], [u8; 4]); 6] = [
 // @prop C14
 // @tier quick
 // @timeout 900
-// @fn szx::load (header check, chunk walker, dispatch on id, skipping)
+// @fn szx::load (header check, model check, chunk walker, size check, dispatch on id, skipping)
 // @sym version bytes, flags byte, chunk data; chunk sizes enumerated (0,8) (8,0) (3,5) (1,1) (8,8) (5,2); chunk id pairs enumerated: (Z80R,SPCR) (SPCR,RAMP) (RAMP,Z80R) (KEYB,AMXM) (CRTR,unknown) (unknown,Z80R); machine id 1 on 48K / 2 on 128K
-// @assert load returns Ok; every known chunk is handed to its processor exactly once, in file order, with exactly its data (length, first byte) and the header's machine id; unknown chunks are skipped; nothing else is called
+// @assert load returns Ok; every known chunk is handed to its processor exactly once, in file order, with exactly its data (length, first byte) and the header's machine id; unknown chunks are skipped; nothing else is called; no read request beyond the bytes left in the file
 // @bound two chunks of at most 8 data bytes per file, six id pairs x two machines
 // @stub szx::process_{crtr,z80r,spcr,keyb,amxm,ramp}_block -> call recorders (each processor is verified on its own above); ZXController::refresh_memory_dependent_devices -> no-op; core::str::from_utf8 -> ASCII-only validator (the real one does not finish under CBMC even on 4 concrete bytes)
 // @outside non-ASCII / lower-case ids (to_uppercase Unicode tables); more than two chunks (the loop body is identical per chunk)
@@ -1202,6 +1240,7 @@ fn c14_szx_walker_dispatch() {
         reset_calls();
         let r = load(&mut e, &mut asset);
         kani::assert(r.is_ok(), "c14.szx.walker.accepted");
+        kani::assert(!asset.over_remaining, "c14.szx.walker.no_request_beyond_file");
         let (w1, w2) = (spec_which(&id1), spec_which(&id2));
         let want1 = Call { which: w1, mid: if w1 == 3 || w1 == 6 { mid as u32 } else { NO_MID }, len: s1 as usize, first: if s1 > 0 { d1[0] } else { 0 } };
         let want2 = Call { which: w2, mid: if w2 == 3 || w2 == 6 { mid as u32 } else { NO_MID }, len: s2 as usize, first: if s2 > 0 { d2[0] } else { 0 } };
@@ -1223,14 +1262,13 @@ fn c14_szx_walker_dispatch() {
 }
 
 // @harness
-// @prop C14
+// @prop C14 C15
 // @tier quick
 // @timeout 900
-// @expect known:KF-C14-3
-// @fn szx::load
-// @sym chunk size / data
-// @assert an SZX file whose header names another model than the emulator's (128K file -> 48K machine, 48K file -> 128K machine) is rejected with Err before any chunk is applied
-// @bound one chunk per file
+// @fn szx::load (model check)
+// @sym chunk data, version, flags; (file machine id, emulator) enumerated over every mismatching pair: ids 0 and 1 into 128K, id 2 into 48K, ids 3, 0x80, 0xFF into both
+// @assert an SZX file whose header names another model than the emulator's is refused with Err(MachineNotSupported) before any chunk header is read (at most the 8 header bytes requested) and no processor runs, so the machine is untouched (was KF-C14-3)
+// @bound one RAMP chunk per file, 9 loads
 // @stub chunk processors -> call recorders; refresh -> no-op; core::str::from_utf8 -> ASCII-only validator
 // @replay solver-only
 #[kani::proof]
@@ -1243,25 +1281,33 @@ fn c14_szx_walker_dispatch() {
 #[kani::stub(process_ramp_block, stub_ramp)]
 #[kani::stub(ZXController::refresh_memory_dependent_devices, noop_refresh)]
 #[kani::stub(core::str::from_utf8, ascii_only_from_utf8)]
-fn c14_known_szx_model_mismatch_accepted() {
-    let d: [u8; 8] = kani::any();
-    let swap: bool = kani::any();
-    let (machine, mid) = if swap { (ZXMachine::Sinclair48K, 2u8) } else { (ZXMachine::Sinclair128K, 1u8) };
-    let (file, len) = spec_file(mid, (1, 4), 0, &[(*b"RAMP", 8, d)], &[8]);
-    let mut asset = SmallAsset::new(file, len);
-    let mut e = mk_emulator(machine, CTX);
-    reset_calls();
-    let r = load(&mut e, &mut asset);
-    kani::assert(r.is_err(), "c14.szx.model_mismatch_rejected");
-    unsafe {
-        kani::assert(NCALLS == 0, "c14.szx.model_mismatch_nothing_applied");
+fn c14_szx_other_model_rejected() {
+    let cases: [(bool, u8); 9] = [(true, 0), (true, 1), (false, 2), (true, 3), (false, 3), (true, 0x80), (false, 0x80), (true, 0xFF), (false, 0xFF)];
+    let mut e48 = mk_emulator(ZXMachine::Sinclair48K, CTX);
+    let mut e128 = mk_emulator(ZXMachine::Sinclair128K, CTX);
+    let mut i = 0;
+    while i < 9 {
+        let (big, mid) = cases[i];
+        let d: [u8; 8] = kani::any();
+        let (file, len) = spec_file(mid, (kani::any(), kani::any()), kani::any(), &[(*b"RAMP", 8, d)], &[8]);
+        let mut asset = SmallAsset::new(file, len);
+        reset_calls();
+        let r = if big { load(&mut e128, &mut asset) } else { load(&mut e48, &mut asset) };
+        kani::assert(matches!(r, Err(Error::SnapshotLoad(SnapshotLoadError::MachineNotSupported))), "c14.szx.model_mismatch_rejected");
+        unsafe {
+            kani::assert(NCALLS == 0, "c14.szx.model_mismatch_nothing_applied");
+        }
+        kani::assert(asset.max_req <= 8 && asset.calls <= 3, "c14.szx.model_mismatch_only_header_read");
+        i += 1;
     }
-    kani::cover!(true, "reached");
+    kani::cover!(true, "nine mismatches refused");
 }
 
-/// two-chunk file Z80R(3 bytes) SPCR(5 bytes) with free data, version, flags and machine id
+/// two-chunk file Z80R(3 bytes) SPCR(5 bytes) with free data, version and flags, machine id 0..1
 fn c15_two_chunk_file() -> ([u8; 48], usize) {
-    spec_file(kani::any(), (kani::any(), kani::any()), kani::any(), &[(*b"Z80R", 3, kani::any()), (*b"SPCR", 5, kani::any())], &[3, 5])
+    let mid: u8 = kani::any();
+    kani::assume(mid <= 1);
+    spec_file(mid, (kani::any(), kani::any()), kani::any(), &[(*b"Z80R", 3, kani::any()), (*b"SPCR", 5, kani::any())], &[3, 5])
 }
 
 // Asset call sequence of szx::load on that file (S = seek, R = read_exact):
@@ -1272,9 +1318,9 @@ fn c15_two_chunk_file() -> ([u8; 48], usize) {
 // @tier quick
 // @timeout 900
 // @fn szx::load (header check, chunk walker, dispatch); LoadableAsset::read_exact
-// @sym version, machine id 0..255, flags, chunk data; fault kind Err at every asset call 0..12, 1-byte short read and premature Ok(0) at every read call
-// @assert no panic / overflow; loops terminate within the unwinding bound; at most 20 asset calls; no read request larger than the file; an asset failure while reading the file header or chunk data surfaces as Err
-// @bound one two-chunk file of 32 bytes; 27 concrete fault placements + fault-free
+// @sym version, machine id 0..1, flags, chunk data; fault kind Err at every asset call 0..12, 1-byte short read and premature Ok(0) at every read call
+// @assert no panic / overflow; loops terminate within the unwinding bound; at most 20 asset calls; no read request beyond the bytes left in the file; an asset failure while reading the file header or chunk data surfaces as Err
+// @bound one two-chunk file of 32 bytes on the 48K machine; 27 concrete fault placements + fault-free
 // @stub chunk processors -> call recorders; refresh -> no-op; core::str::from_utf8 -> ASCII-only validator
 // @outside more than two chunks; a failing read of a *chunk header* ends the walk with Ok (rustzx treats every error there as end of file; Ok is an allowed outcome of C15)
 // @replay solver-only
@@ -1299,7 +1345,6 @@ fn c15_szx_walker_faults() {
     let mut i = 0;
     while i <= 27 {
         let (file, len) = c15_two_chunk_file();
-        kani::assume(file[6] <= 2);
         let mut asset = SmallAsset::new(file, len);
         if i < 27 {
             asset.fault = Fault { at: faults[i].0, kind: faults[i].1, n: 1 };
@@ -1307,7 +1352,7 @@ fn c15_szx_walker_faults() {
         reset_calls();
         let r = load(&mut e, &mut asset);
         kani::assert(asset.calls <= 20, "c15.szx.walker.bounded_number_of_asset_calls");
-        kani::assert(asset.max_req <= len, "c15.szx.walker.allocation_in_proportion");
+        kani::assert(asset.max_req <= len && !asset.over_remaining, "c15.szx.walker.allocation_in_proportion");
         if i < 27 && asset.fault_hit && faults[i].1 != 1 && (faults[i].0 <= 3 || faults[i].0 == 6 || faults[i].0 == 10) {
             kani::assert(r.is_err(), "c15.szx.walker.asset_failure_surfaces_as_err");
         }
@@ -1328,10 +1373,10 @@ fn c15_szx_walker_faults() {
 // @prop C15
 // @tier quick
 // @timeout 900
-// @fn szx::load (header check, machine id check, chunk walker)
+// @fn szx::load (header check, machine id check, chunk walker, size check)
 // @sym magic bytes (ASCII or never-valid-UTF-8 bytes), version, machine id 0..255, flags, chunk data; file truncated at every length 0..32
-// @assert no panic / overflow; bounded asset calls; no read request larger than 8 bytes beyond what the chunk headers claim (3 and 5); wrong magic or machine id > 2 is Err; a file cut inside the header or inside chunk data is Err
-// @bound the two-chunk file cut at each of its 33 lengths
+// @assert no panic / overflow; bounded asset calls; no read request above 8 bytes and none beyond the bytes left when it is a chunk buffer; wrong magic or a machine id the 128K machine cannot take is Err; a file cut inside the header or inside chunk data is Err
+// @bound the two-chunk file cut at each of its 33 lengths, 128K machine
 // @stub chunk processors -> call recorders; refresh -> no-op; core::str::from_utf8 -> ASCII-only validator
 // @replay solver-only
 #[kani::proof]
@@ -1349,7 +1394,8 @@ fn c15_szx_walker_truncated() {
     let mut len = 0usize;
     let mut oks = 0u8;
     while len <= 32 {
-        let (mut file, _) = c15_two_chunk_file();
+        let mid: u8 = kani::any();
+        let (mut file, _) = spec_file(mid, (kani::any(), kani::any()), kani::any(), &[(*b"Z80R", 3, kani::any()), (*b"SPCR", 5, kani::any())], &[3, 5]);
         let magic: [u8; 4] = kani::any();
         let mut i = 0;
         while i < 4 {
@@ -1361,9 +1407,9 @@ fn c15_szx_walker_truncated() {
         reset_calls();
         let r = load(&mut e, &mut asset);
         kani::assert(asset.calls <= 20, "c15.szx.walker.bounded_number_of_asset_calls");
-        kani::assert(asset.max_req <= 8, "c15.szx.walker.allocation_in_proportion");
+        kani::assert(asset.max_req <= 8 && !asset.over_remaining, "c15.szx.walker.allocation_in_proportion");
         let magic_ok = magic[0] == b'Z' && magic[1] == b'X' && magic[2] == b'S' && magic[3] == b'T';
-        if len < 8 || !magic_ok || file[6] > 2 {
+        if len < 8 || !magic_ok || mid != 2 {
             kani::assert(r.is_err(), "c15.szx.walker.bad_header_is_err");
         }
         if (len > 16 && len < 19) || (len > 27 && len < 32) {
@@ -1381,13 +1427,12 @@ fn c15_szx_walker_truncated() {
 // @prop C15
 // @tier quick
 // @timeout 900
-// @expect known:KF-C15-8
-// @fn szx::load (chunk buffer allocation)
-// @sym nothing (size field 0xFFFFFFFF; a symbolic size field did not finish in 600 s); the file ends right after the chunk header
-// @assert the buffer szx::load allocates for a chunk (observed as the length of the read request that follows) is no larger than the file
-// @bound file of 8 + 8 bytes
+// @fn szx::load (chunk size check before the chunk buffer allocation)
+// @sym chunk data; the chunk's 32-bit size field enumerated: 9, 17, 0x100, 0x10000, 0x7FFFFFFF, 0x80000000, 0xFFFFFFFF against 8 bytes really present, and 1 against 0 present
+// @assert a chunk claiming more bytes than the file has left is Err(InvalidSZXFile), and the buffer szx::load allocates (observed as the length of the read request that follows) never exceeds the bytes left in the file: no request above 8 bytes is issued at all (was KF-C15-8)
+// @bound files of 8 + 8 + 8 (or + 0) bytes, 8 loads
 // @stub chunk processors -> call recorders; refresh -> no-op; core::str::from_utf8 -> ASCII-only validator
-// @assume claimed size > bytes left in the file (the walker harnesses above use honest size fields)
+// @outside a symbolic size field (did not finish in 600 s before the fix; the check added by ecf0f4d is a single comparison on the enumerated path)
 // @replay solver-only
 #[kani::proof]
 #[kani::unwind(50)]
@@ -1399,28 +1444,36 @@ fn c15_szx_walker_truncated() {
 #[kani::stub(process_ramp_block, stub_ramp)]
 #[kani::stub(ZXController::refresh_memory_dependent_devices, noop_refresh)]
 #[kani::stub(core::str::from_utf8, ascii_only_from_utf8)]
-fn c15_known_szx_walker_allocation() {
-    let claimed: u32 = 0xFFFF_FFFF;
-    let (file, len) = spec_file(1, (1, 4), 0, &[(*b"RAMP", 0, [0; 8])], &[claimed]);
-    let mut asset = SmallAsset::new(file, len);
+fn c15_szx_walker_oversized_chunk_is_err() {
+    let claims: [(u32, u32); 8] = [(9, 8), (17, 8), (0x100, 8), (0x1_0000, 8), (0x7FFF_FFFF, 8), (0x8000_0000, 8), (0xFFFF_FFFF, 8), (1, 0)];
     let mut e = mk_emulator(ZXMachine::Sinclair48K, CTX);
-    let r = load(&mut e, &mut asset);
-    kani::assert(r.is_err(), "c15.szx.walker.oversized_chunk_is_err");
-    kani::assert(asset.max_req <= len, "c15.szx.walker.allocation_in_proportion");
-    kani::cover!(true, "reached");
+    let mut i = 0;
+    while i < 8 {
+        let (claimed, real) = claims[i];
+        let (file, len) = spec_file(1, (1, 4), 0, &[(*b"RAMP", real, kani::any())], &[claimed]);
+        let mut asset = SmallAsset::new(file, len);
+        reset_calls();
+        let r = load(&mut e, &mut asset);
+        kani::assert(matches!(r, Err(Error::SnapshotLoad(SnapshotLoadError::InvalidSZXFile))), "c15.szx.walker.oversized_chunk_is_err");
+        kani::assert(asset.max_req <= 8 && !asset.over_remaining, "c15.szx.walker.allocation_in_proportion");
+        unsafe {
+            kani::assert(NCALLS == 0, "c15.szx.walker.oversized_chunk_not_dispatched");
+        }
+        i += 1;
+    }
+    kani::cover!(true, "eight oversized chunks refused");
 }
 
 // @harness
 // @prop C15
 // @tier quick
 // @timeout 900
-// @expect known:KF-C15-6
 // @fn szx::load (chunk id decoding)
-// @sym nothing (chunk id FF 41 41 41; with a symbolic byte the to_uppercase path on the Ok side does not finish)
-// @assert a chunk whose id is not valid UTF-8 is skipped or refused, without panic
-// @bound file of 8 + 8 bytes
+// @sym chunk data; chunk id FF 41 41 41 followed by a Z80R chunk
+// @assert a chunk whose id is not valid UTF-8 is skipped like any unknown chunk, without panic, and the following chunk is still dispatched (was KF-C15-6)
+// @bound file of 8 + (8+2) + (8+3) bytes
 // @stub chunk processors -> call recorders; refresh -> no-op; core::str::from_utf8 -> ASCII-only validator
-// @assume id byte outside UTF-8 (the region excluded from c15_szx_walker_total)
+// @outside a symbolic id byte (the to_uppercase path on the Ok side does not finish)
 // @replay solver-only
 #[kani::proof]
 #[kani::unwind(50)]
@@ -1432,15 +1485,18 @@ fn c15_known_szx_walker_allocation() {
 #[kani::stub(process_ramp_block, stub_ramp)]
 #[kani::stub(ZXController::refresh_memory_dependent_devices, noop_refresh)]
 #[kani::stub(core::str::from_utf8, ascii_only_from_utf8)]
-fn c15_known_szx_walker_id_not_utf8() {
-    let b: u8 = 0xFF;
-    let (file, len) = spec_file(1, (1, 4), 0, &[([b, b'A', b'A', b'A'], 0, [0; 8])], &[0]);
+fn c15_szx_walker_id_not_utf8_skipped() {
+    let (file, len) = spec_file(1, (1, 4), 0, &[([0xFF, b'A', b'A', b'A'], 2, kani::any()), (*b"Z80R", 3, kani::any())], &[2, 3]);
     let mut asset = SmallAsset::new(file, len);
     let mut e = mk_emulator(ZXMachine::Sinclair48K, CTX);
-    let _ = load(&mut e, &mut asset);
+    reset_calls();
+    let r = load(&mut e, &mut asset);
+    kani::assert(r.is_ok(), "c15.szx.walker.undecodable_id_skipped");
+    unsafe {
+        kani::assert(NCALLS == 1 && CALLS[0].which == 2 && CALLS[0].len == 3, "c15.szx.walker.chunk_after_undecodable_id_dispatched");
+    }
     kani::cover!(true, "reached");
 }
-
 
 // ================================================================================================
 // C14 / C15: AY chunk (builds with features sound,ay only)
@@ -1487,7 +1543,8 @@ fn ay_chunk_applied(check_generator: bool) {
     unsafe {
         AY_GEN_SEEN = 0;
     }
-    process_ay_block(&mut e, 2, &body);
+    let r = process_ay_block(&mut e, 2, &body);
+    kani::assert(r.is_ok(), "c14.szx.ay.accepted");
     let ay = &mut controller(&mut e).mixer.ay;
     kani::assert(ay.read() == regs[cur as usize], "c14.szx.ay.selected_register");
     let mut i = 0u8;
@@ -1498,9 +1555,10 @@ fn ay_chunk_applied(check_generator: bool) {
     }
     if check_generator {
         unsafe {
-            kani::assert(AY_GEN_SEEN == 0xFFFF, "c14.szx.ay.every_register_reaches_generator");
+            // R0..R13 are the sound registers; R14/R15 are I/O ports without audible effect
+            kani::assert(AY_GEN_SEEN & 0x3FFF == 0x3FFF, "c14.szx.ay.every_sound_register_reaches_generator");
             let k: usize = kani::any();
-            kani::assume(k < 16);
+            kani::assume(k < 14);
             kani::assert(AY_GEN[k] == regs[k], "c14.szx.ay.generator_register_value");
         }
     }
@@ -1513,10 +1571,9 @@ fn ay_chunk_applied(check_generator: bool) {
 // @timeout 900
 // @fn szx::process_ay_block; ZXAyChip::select_reg; ZXAyChip::set_regs; ZXAyChip::read
 // @sym flags byte, selected register 0..15, all 16 register bytes; one arbitrary earlier register write in the receiver
-// @assert reading the AY data port afterwards returns the chunk's value for the chunk's selected register, and for every register after selecting it
+// @assert the chunk is accepted; reading the AY data port afterwards returns the chunk's value for the chunk's selected register, and for every register after selecting it
 // @bound one chunk, 128K machine, AY enabled
 // @stub libm::sqrt -> identity (unsupported SIMD intrinsic in AymPrecise::new); <AymPrecise as AymBackend>::write_register -> recorder
-// @outside the audible state: KF-C14-5 (c14_known_szx_ay_generator_not_updated)
 // @replay solver-only
 #[cfg(all(feature = "sound", feature = "ay"))]
 #[kani::proof]
@@ -1533,19 +1590,19 @@ fn c14_szx_ay_register_file() {
 // @tier quick
 // @features sound,ay
 // @timeout 900
-// @expect known:KF-C14-5
 // @fn szx::process_ay_block; ZXAyChip::set_regs
 // @sym as c14_szx_ay_register_file
-// @assert every one of the 16 restored registers is also written to the sound generator (AymPrecise::write_register), so that the audible state is the chunk's
+// @assert every one of the 14 restored sound registers R0..R13 is also written to the sound generator (AymPrecise::write_register) with the chunk's value, so that the audible state is the chunk's (was KF-C14-5)
 // @bound one chunk
-// @stub libm::sqrt -> identity; <AymPrecise as AymBackend>::write_register -> recorder
+// @stub libm::sqrt -> identity; <AymPrecise as AymBackend>::write_register -> recorder (what the generator does with a register value is C18's subject)
+// @outside audible equality of samples (float DSP)
 // @replay solver-only
 #[cfg(all(feature = "sound", feature = "ay"))]
 #[kani::proof]
 #[kani::unwind(20)]
 #[kani::stub(libm::sqrt, sqrt_identity)]
 #[kani::stub(<aym::AymPrecise as aym::AymBackend>::write_register, gen_write_register)]
-fn c14_known_szx_ay_generator_not_updated() {
+fn c14_szx_ay_generator_updated() {
     ay_chunk_applied(true);
     kani::cover!(true, "reached");
 }
@@ -1556,27 +1613,32 @@ fn c14_known_szx_ay_generator_not_updated() {
 // @features sound,ay
 // @timeout 900
 // @fn szx::process_ay_block; Emulator::set_ay_enabled; ZXAyChip::set_regs
-// @sym chunk bytes 18..40 long, machine id 0..2, both machines
-// @assert no panic / overflow
+// @sym chunk bytes 0..40 long, machine id 0..1 on 48K / 2 on 128K
+// @assert no panic / overflow; Ok exactly from 18 bytes, shorter chunks Err(InvalidSZXFile) (was KF-C15-3)
 // @bound one chunk per machine
-// @stub libm::sqrt -> identity
-// @assume chunk length >= 18 when the AY ends up enabled (shorter: KF-C15-3)
+// @stub libm::sqrt -> identity; <AymPrecise as AymBackend>::write_register -> recorder
 // @replay solver-only
 #[cfg(all(feature = "sound", feature = "ay"))]
 #[kani::proof]
 #[kani::unwind(20)]
 #[kani::stub(libm::sqrt, sqrt_identity)]
+#[kani::stub(<aym::AymPrecise as aym::AymBackend>::write_register, gen_write_register)]
 fn c15_szx_ay_total() {
     let (data, len) = any_chunk();
-    kani::assume(len >= 18);
     let id: u32 = kani::any();
-    kani::assume(id <= 2);
+    kani::assume(id <= 1);
     let mut e = mk_emulator(ZXMachine::Sinclair48K, CTX);
-    process_ay_block(&mut e, id, &data[..len]);
+    let r = process_ay_block(&mut e, id, &data[..len]);
+    kani::assert(r.is_ok() == (len >= 18), "c15.szx.ay.ok_iff_long_enough_48");
     let mut e = mk_emulator(ZXMachine::Sinclair128K, CTX);
-    process_ay_block(&mut e, id, &data[..len]);
-    kani::cover!(id == 1 && data[0] & 2 == 0, "48K file switching the AY off");
+    let r = process_ay_block(&mut e, 2, &data[..len]);
+    kani::assert(r.is_ok() == (len >= 18), "c15.szx.ay.ok_iff_long_enough_128");
+    if len < 18 {
+        kani::assert(is_invalid_szx(&r), "c15.szx.ay.err_kind");
+    }
+    kani::cover!(id == 1 && len >= 18 && data[0] & 2 == 0, "48K file switching the AY off");
     kani::cover!(len == 18, "exact chunk");
+    kani::cover!(len == 17, "one byte short");
 }
 
 // @harness
@@ -1584,24 +1646,25 @@ fn c15_szx_ay_total() {
 // @tier quick
 // @features sound,ay
 // @timeout 900
-// @expect known:KF-C15-3
 // @fn szx::process_ay_block; ZXAyChip::set_regs
 // @sym chunk bytes, length 0..17
-// @assert an AY chunk shorter than 18 bytes does not panic
+// @assert an AY chunk shorter than 18 bytes is Err(InvalidSZXFile), no panic (was KF-C15-3)
 // @bound one chunk, 128K
-// @stub libm::sqrt -> identity
+// @stub libm::sqrt -> identity; write_register -> recorder
 // @assume length < 18
 // @replay solver-only
 #[cfg(all(feature = "sound", feature = "ay"))]
 #[kani::proof]
 #[kani::unwind(20)]
 #[kani::stub(libm::sqrt, sqrt_identity)]
-fn c15_known_szx_ay_short_chunk() {
+#[kani::stub(<aym::AymPrecise as aym::AymBackend>::write_register, gen_write_register)]
+fn c15_szx_ay_short_chunk_is_err() {
     let (data, len) = any_chunk();
     kani::assume(len < 18);
     let mut e = mk_emulator(ZXMachine::Sinclair128K, CTX);
-    process_ay_block(&mut e, 2, &data[..len]);
-    kani::cover!(true, "reached");
+    let r = process_ay_block(&mut e, 2, &data[..len]);
+    kani::assert(is_invalid_szx(&r), "c15.szx.ay.short_is_err");
+    kani::cover!(len == 2, "reached");
 }
 
 // @harness
@@ -1611,19 +1674,15 @@ fn c15_known_szx_ay_short_chunk() {
 // @expect vacuity
 // @fn szx::process_z80r_block; szx::process_spcr_block
 // @bound reachability twin of c14_szx_z80r_spcr_commute
-// @stub ZXScreen::process_clocks -> no-op
-// @replay solver-only
 #[kani::proof]
 #[kani::unwind(40)]
-#[kani::stub(ZXScreen::process_clocks, noop_screen_clocks)]
 fn c14_szx_chunks_reach() {
     let z = any_zabs();
-    kani::assume(!z.halted);
     let zb = spec_z80r(&z, 1);
     let sb = spec_spcr(3, kani::any(), 0, kani::any(), [0; 4]);
     let mut e1 = mk_emulator(ZXMachine::Sinclair128K, CTX);
-    process_z80r_block(&mut e1, &zb);
-    process_spcr_block(&mut e1, 2, &sb);
+    let _ = process_z80r_block(&mut e1, &zb);
+    let _ = process_spcr_block(&mut e1, 2, &sb);
     check_z80r_regs(&mut e1, &z);
     kani::assert(false, "c14.reach");
 }
@@ -1641,7 +1700,9 @@ fn c15_szx_chunks_reach() {
     let (data, len) = any_chunk();
     kani::assume(len >= 37 && data[28] <= 2 && data[0] & 1 == 1 && data[2] == 5);
     let mut e = mk_emulator(ZXMachine::Sinclair128K, CTX);
-    process_z80r_block(&mut e, &data[..len]);
+    let _ = process_z80r_block(&mut e, &data[..len]);
     let _ = process_ramp_block(&mut e, 2, &data[..len]);
     kani::assert(false, "c15.reach");
 }
+
+
